@@ -13,6 +13,8 @@ use std::collections::{BTreeMap, BTreeSet};
 use std::io::{Cursor, Read};
 
 use wf_harness::core::*;
+#[cfg(feature = "genair")]
+use wf_harness::genair::{gen_trace, prove, random_desc, Budget, FieldId, HashId, OptSpec};
 use winter_air::{
     proof::{Commitments, Context, OodFrame, Proof, Queries, Table, TraceOodFrame},
     FieldExtension, LagrangeKernelEvaluationFrame, ProofOptions, TraceInfo,
@@ -2191,6 +2193,49 @@ impl Prop for C12 {
             // boundary-sized values (65535-byte metadata, 255 x 255 tables, 16384-element vectors, ...)
             let nbig = if is_heavy { if quick { 6 } else { 40 } } else if quick { 1 } else { 6 };
             dispatch_gen(&name, rng, nbig, 70000, emit);
+        }
+        // whole proofs from the real prover (random AIRs of the shared generator: auxiliary segments,
+        // Lagrange kernel columns, all fields, hashers, extensions, folding factors)
+        #[cfg(feature = "genair")]
+        let nproofs = if quick { 10 } else { 80 };
+        let mut made = 0;
+        #[cfg(feature = "genair")]
+        for i in 0..nproofs * 3 {
+            if made >= nproofs {
+                break;
+            }
+            let field = *rng.pick(&[FieldId::F64, FieldId::F62, FieldId::F128]);
+            let hashers = HashId::for_field(field);
+            let hasher = *rng.pick(&hashers);
+            let exts: Vec<u8> = [1u8, 2, 3].iter().cloned().filter(|e| field.supports_ext(*e)).collect();
+            let ext = *rng.pick(&exts);
+            let opts = OptSpec::new(
+                *rng.pick(&[1usize, 2, 7, 28, 60]),
+                *rng.pick(&[8usize, 16, 32]),
+                *rng.pick(&[0u32, 1, 4]),
+                ext,
+                *rng.pick(&[2usize, 4, 8, 16]),
+                *rng.pick(&[0usize, 1, 3, 7, 31, 255]),
+            );
+            let bud = Budget { max_log_len: 6, ..Budget::default() };
+            let desc = std::sync::Arc::new(random_desc(rng, &bud));
+            let seed = rng.u64();
+            let d2 = desc.clone();
+            let r = guarded(move || {
+                let trace = gen_trace(&d2, field, seed);
+                prove(&d2, &trace, field, &opts, hasher).map(|p| p.to_bytes()).map_err(|_| ())
+            });
+            if let Ok(Ok(bytes)) = r {
+                made += 1;
+                emit(format!("enc proof {}", xhex(&bytes)));
+                emit(format!("dec proof {}", hex(&bytes)));
+                for _ in 0..3 {
+                    let m = mutate(rng, &bytes);
+                    if safe_to_decode::<Proof>(&m) {
+                        emit(format!("dec proof {}", hex(&m)));
+                    }
+                }
+            }
         }
         // the types' own parse steps
         for i in 0..per * 2 {
